@@ -72,6 +72,28 @@ def _pairs_worker(pairs):
     return out
 
 
+def _pollute():
+    """what happens in every process that ran a doctest before: some OTHER RuntimeState was last updated with inline directives"""
+    from xdoctest import directive
+    rs = directive.RuntimeState()
+    rs.update([directive.Directive('ELLIPSIS', False, inline=True), directive.Directive('NORMALIZE_REPR', False, inline=True),
+               directive.Directive('NORMALIZE_WHITESPACE', False, inline=True), directive.Directive('DONT_ACCEPT_BLANKLINE', True, inline=True),
+               directive.Directive('IGNORE_WHITESPACE', True, inline=True)])
+    return rs
+
+
+def _pairs_worker_after_inline(pairs):
+    """the same comparison, with fresh RuntimeState objects, after another RuntimeState got an inline update (kept alive)"""
+    global _STATES
+    keep = _pollute()
+    _STATES = None
+    try:
+        return _pairs_worker(pairs)
+    finally:
+        _STATES = None
+        del keep
+
+
 def analyse(ctx, pairs, results, where):
     """compare verdict vectors, then evaluate the monotonicity clause on the implementation"""
     n_match = 0
@@ -215,6 +237,14 @@ def run(ctx):
                  % (','.join(NAMES), alpha, mg, mw, 2 if quick else 3, syms2))
     ctx.sample({'got': ".a", 'want': '. ...', 'impl_bits_over_32_flag_settings': impl_bits('.a', '. ...')})
 
+    # ---- the flags of a comparison are those handed to it: not what some other RuntimeState of the process was last told inline ----
+    sample = pairs[::max(1, len(pairs) // 4000)] + [(g, w) for g, w in (('abc', 'a...'), ("'abc'", 'abc'), ('a\n\nb', 'a\n' + B + '\nb'), ('a  b', 'a b'))]
+    chunks = [sample[i:i + 500] for i in range(0, len(sample), 500)]
+    results_p = [r for ch in common.pmap(_pairs_worker_after_inline, chunks) for r in ch]
+    analyse(ctx, sample, results_p, 'after an inline update of another RuntimeState')
+    ctx.evaluations += len(sample) * 32
+    ctx.count('pairs_after_inline_update_elsewhere', len(sample))
+
     # ---- wildcard stratum: wants built from 2..3 literal pieces around '...' ------------
     pieces = ['', 'a', 'b', 'ab', 'a b', 'b\na']
     seps = ['...', ' ... ', '...\n']
@@ -348,6 +378,7 @@ def replay(path):
         from harness.props import c02
         return c02.replay_gvw(d, path, 'C05')
     if 'got' in d and 'want' in d:
+        keep = _pollute() if 'inline update' in str(d.get('where', '')) else None
         b = impl_bits(d['got'], d['want'])
         a = common.model_batch([('check_output_allflags', d['got'], d['want'])], raw=True)[0]
         print('got=%r want=%r\n impl =%s\n model=%s' % (d['got'], d['want'], b, a))
